@@ -156,11 +156,20 @@ MARKOWITZ = [F(1, 10000), F(1, 1000), F(1, 100), F(1, 25), F(1, 10), F(3, 10), F
 
 
 class ValueGen:
-    """entry values: 'D' exact dyadics of moderate size, 'R' rationals of widely varying bit length"""
+    """entry values: 'D' exact dyadics of moderate size, 'R' rationals of widely varying bit length.  For rationals the bit
+    budget shrinks with the dimension and a matrix uses few distinct large denominators: the extracted checker works
+    on integers obtained by clearing denominators, in schoolbook arithmetic on the inductive positive type."""
 
-    def __init__(self, rng, kind):
+    def __init__(self, rng, kind, n=4, style=None):
         self.r, self.kind = rng, kind
-        self.style = rng.choice(["small", "small", "mixed", "wide"]) if kind == "R" else rng.choice(["small", "small", "frac", "big"])
+        if kind == "R":
+            self.style = style or rng.choice(["small", "small", "mixed", "wide"])
+            self.bits = 200 if n <= 5 else 100 if n <= 8 else 40 if n <= 14 else 24 if n <= 25 else 12
+            self.dens = [1, 1, 1, 2, 3, 4, 7]
+            if self.style != "small":
+                self.dens += [rng.getrandbits(rng.choice([8, max(8, self.bits // 2), self.bits])) + 1 for _ in range(2)]
+        else:
+            self.style = style or rng.choice(["small", "small", "frac", "big"])
 
     def nz(self):
         r = self.r
@@ -173,20 +182,19 @@ class ValueGen:
             if r.random() < 0.5:
                 return F(r.choice([-1, 1]))
             return F(v)
-        # rational
         s = self.style
         k = r.random()
-        if s == "small" or (s == "mixed" and k < 0.6):
+        if s == "small" or (s == "mixed" and k < 0.6) or (s == "wide" and k < 0.3):
             return F(r.choice([-1, 1]) * r.randint(1, 9), r.choice([1, 1, 1, 2, 3, 4, 7]))
         if s == "mixed" or (s == "wide" and k < 0.5):
-            return F(r.choice([-1, 1]) * r.randint(1, 10 ** 6), r.randint(1, 10 ** 6))
-        bits = r.choice([8, 30, 64, 100, 200])
-        return F(r.choice([-1, 1]) * r.getrandbits(bits) + 1, r.getrandbits(r.choice([1, 8, 64, 150])) + 1)
+            return F(r.choice([-1, 1]) * r.randint(1, 2 ** min(20, self.bits)), r.choice(self.dens))
+        bits = r.choice([8, max(8, self.bits // 3), self.bits])
+        return F(r.choice([-1, 1]) * (r.getrandbits(bits) + 1), r.choice(self.dens))
 
 
 def gen_matrix(rng, n, family, kind):
     """returns columns (lists of Fractions), square n x n, hopefully nonsingular"""
-    vg = ValueGen(rng, kind)
+    vg = ValueGen(rng, kind, n)
     A = [[F(0)] * n for _ in range(n)]          # A[i][j] row-major while building
     prow = list(range(n))
     pcol = list(range(n))
@@ -300,13 +308,15 @@ def gen_rhs(rng, n, kind, style=None):
     k = n if style == "dense" else min(n, rng.randint(1, 3))
     idx = rng.sample(range(n), k)
     out = {}
+    vg = None
     for i in idx:
         if kind == "D":
             v = F(rng.choice([-1, 1]) * rng.randint(1, 9))
             if rng.random() < 0.2:
                 v /= 2 ** rng.randint(1, 3)
         else:
-            v = ValueGen(rng, "R").nz()
+            vg = vg if i != idx[0] else ValueGen(rng, "R", n)
+            v = vg.nz()
         out[i] = v
     return out
 
@@ -321,7 +331,7 @@ def gen_column(rng, n, cols, kind):
         if vals and rng.random() < 0.7:
             col[i] = rng.choice(vals) * rng.choice([1, -1, 1, 2])
         else:
-            col[i] = ValueGen(rng, kind).nz()
+            col[i] = ValueGen(rng, kind, n, style="small").nz()
     return col
 
 
@@ -569,6 +579,30 @@ def run_harness(exe, lines, name):
     if not os.environ.get("VERIF_KEEP"):
         os.remove(hf)
     return rc, out, err
+
+
+def run_all(exe, cases, name, max_crashes=4):
+    """run all cases; after a crash continue with the cases behind the crashing one in a new process.
+    returns (blocks by case index string, list of (case index, observations so far, rc, stderr))"""
+    blocks, crashes = {}, []
+    start = 0
+    while start < len(cases):
+        lines = []
+        for k in range(start, len(cases)):
+            c = cases[k]
+            lines += lp_text(str(k), c) if c["kind"] == "LP" else case_text(str(k), c)
+        rc, out, err = run_harness(exe, lines, name)
+        b = split_cases(out)
+        blocks.update(b)
+        if rc == 0:
+            break
+        last = max([int(k) for k in b] or [start])
+        crashes.append((last, len(b.get(str(last), [])), rc, err[-1500:]))
+        blocks.pop(str(last), None)
+        if len(crashes) >= max_crashes:
+            break
+        start = last + 1
+    return blocks, crashes
 
 
 # ----------------------------------------------------------------------------------------------------------
